@@ -94,6 +94,8 @@ type Obl struct {
 	IsCover bool
 }
 
+type storeDef struct{ base, idx, val string }
+
 type Eng struct {
 	ld   *Loaded
 	sc   *Script
@@ -117,6 +119,8 @@ type Eng struct {
 	namePrefix  string
 
 	modCache map[*ssa.Function]map[string]bool
+	storeDefs map[string]storeDef // heap version name -> (previous version, index, value)
+	allocRefs map[string]bool
 	wantModels bool
 	mathTerms [][3]string
 }
@@ -125,8 +129,12 @@ func NewEng(ld *Loaded, spec *SpecFile) *Eng {
 	e := &Eng{ld: ld, spec: spec, sc: NewScript(),
 		regionSort: map[string]string{}, subIdx: map[string]int{}, typeIDs: map[string]int{},
 		strLits: map[string]string{}, oblNames: map[string]int{}, notes: map[string]bool{},
-		maxInline: 4, modCache: map[*ssa.Function]map[string]bool{}}
+		maxInline: 4, modCache: map[*ssa.Function]map[string]bool{}, storeDefs: map[string]storeDef{}, allocRefs: map[string]bool{}}
 	e.sc.prelude.WriteString(slicePrelude)
+	if spec != nil {
+		e.declDatatypes()
+		e.declTrace()
+	}
 	return e
 }
 
@@ -162,9 +170,42 @@ func (e *Eng) set(st *State, name, sortName, term, why string) {
 func (e *Eng) havocReg(st *State, name string) {
 	sortName, ok := e.regionSort[name]
 	if !ok {
+		e.errf("havoc of unregistered region %s", name)
 		return
 	}
 	st.reg[name] = e.sc.havoc("hv_"+name, sortName)
+}
+
+// setStore: region := store(region, idx, val), remembered structurally so that
+// later selects at the same (or a provably different, freshly allocated) index
+// are resolved while generating the VC.
+func (e *Eng) setStore(st *State, name, sortName, idx, val, why string) {
+	base := e.get(st, name, sortName)
+	e.set(st, name, sortName, sto(base, idx, val), why)
+	e.storeDefs[st.reg[name]] = storeDef{base, idx, val}
+}
+
+func (e *Eng) selReg(st *State, name, sortName, idx string) string {
+	cur := e.get(st, name, sortName)
+	walk := cur
+	for i := 0; i < 64; i++ {
+		d, ok := e.storeDefs[walk]
+		if !ok {
+			break
+		}
+		if d.idx == idx {
+			return d.val
+		}
+		if e.allocRefs[d.idx] && e.allocRefs[idx] {
+			walk = d.base
+			continue
+		}
+		break
+	}
+	if walk != cur && e.allocRefs[idx] {
+		return sel(walk, idx)
+	}
+	return sel(cur, idx)
 }
 
 func (e *Eng) fieldRegion(st types.Type, idx int) (string, string) {
@@ -275,7 +316,7 @@ func (e *Eng) wfTerm(st *State, t string, typ types.Type, depth int) string {
 			return and(sx("<=", lo, t), sx("<=", t, hi))
 		}
 		if u.Info()&types.IsString != 0 {
-			return sx(">=", sx("strlen", t), "0")
+			return and(sx(">=", sx("strlen", t), "0"), sx("<=", sx("strlen", t), "9223372036854775807"))
 		}
 	case *types.Pointer, *types.Map, *types.Chan:
 		fr := e.get(st, frRegion, "Int")
@@ -285,7 +326,7 @@ func (e *Eng) wfTerm(st *State, t string, typ types.Type, depth int) string {
 		return sx("<", t, fr)
 	case *types.Slice:
 		fr := e.get(st, frRegion, "Int")
-		return and(sx("<=", "0", sx("s_off", t)), sx("<=", "0", sx("s_len", t)), sx("<=", sx("s_len", t), sx("s_cap", t)),
+		return and(sx("<=", "0", sx("s_off", t)), sx("<=", "0", sx("s_len", t)), sx("<=", sx("s_len", t), sx("s_cap", t)), sx("<=", sx("s_cap", t), "9223372036854775807"),
 			sx("<=", "0", sx("s_arr", t)), sx("<", sx("s_arr", t), fr),
 			implies(eq(sx("s_arr", t), "0"), and(eq(sx("s_cap", t), "0"), eq(sx("s_off", t), "0"))))
 	case *types.Struct:
@@ -327,7 +368,7 @@ func (e *Eng) loadField(st *State, base string, stt types.Type, idx int) string 
 		return e.loadObject(st, e.subPtr(stt, idx, base), ft)
 	}
 	r, rs := e.fieldRegion(stt, idx)
-	return sel(e.get(st, r, rs), base)
+	return e.selReg(st, r, rs, base)
 }
 
 // loadObject builds the struct value of an object in field-heap representation.
@@ -338,8 +379,25 @@ func (e *Eng) loadObject(st *State, ptr string, stt types.Type) string {
 		return "mk_" + name
 	}
 	var fs []string
+	common := ""
 	for i := 0; i < s.NumFields(); i++ {
-		fs = append(fs, e.loadField(st, ptr, stt, i))
+		f := e.loadField(st, ptr, stt, i)
+		fs = append(fs, f)
+		// mk(acc_0 x, ..., acc_n x) is x
+		pre := fmt.Sprintf("(%s_%d ", name, i)
+		if strings.HasPrefix(f, pre) && strings.HasSuffix(f, ")") {
+			x := f[len(pre) : len(f)-1]
+			if i == 0 {
+				common = x
+			} else if x != common {
+				common = ""
+			}
+		} else {
+			common = ""
+		}
+	}
+	if common != "" {
+		return common
 	}
 	return "(mk_" + name + " " + strings.Join(fs, " ") + ")"
 }
@@ -352,7 +410,7 @@ func (e *Eng) storeField(st *State, base string, stt types.Type, idx int, v stri
 		return
 	}
 	r, rs := e.fieldRegion(stt, idx)
-	e.set(st, r, rs, sto(e.get(st, r, rs), base, v), why)
+	e.setStore(st, r, rs, base, v, why)
 }
 
 func (e *Eng) storeObject(st *State, ptr string, stt types.Type, v string, why string) {
@@ -369,16 +427,16 @@ func (e *Eng) load(st *State, l *Loc) string {
 		return e.loadField(st, l.Base, l.ST, l.Idx)
 	case LElem:
 		r, rs := e.elemRegion(l.ET)
-		return sel(sel(e.get(st, r, rs), l.Base), l.IdxT)
+		return selStoreChain(e.selReg(st, r, rs, l.Base), l.IdxT)
 	case LCell:
 		if isStructValue(l.ET) {
 			return e.loadObject(st, l.Base, l.ET)
 		}
 		r, rs := e.cellRegion(l.ET)
-		return sel(e.get(st, r, rs), l.Base)
+		return e.selReg(st, r, rs, l.Base)
 	case LArr:
 		r, rs := e.elemRegion(l.ET)
-		return sel(e.get(st, r, rs), l.Base)
+		return e.selReg(st, r, rs, l.Base)
 	case LPath:
 		t := e.load(st, l.Root)
 		for i, f := range l.Path {
@@ -397,18 +455,18 @@ func (e *Eng) store(st *State, l *Loc, v string, why string) {
 		e.storeField(st, l.Base, l.ST, l.Idx, v, why)
 	case LElem:
 		r, rs := e.elemRegion(l.ET)
-		cur := e.get(st, r, rs)
-		e.set(st, r, rs, sto(cur, l.Base, sto(sel(cur, l.Base), l.IdxT, v)), why)
+		arr := e.selReg(st, r, rs, l.Base)
+		e.setStore(st, r, rs, l.Base, sto(arr, l.IdxT, v), why)
 	case LCell:
 		if isStructValue(l.ET) {
 			e.storeObject(st, l.Base, l.ET, v, why)
 			return
 		}
 		r, rs := e.cellRegion(l.ET)
-		e.set(st, r, rs, sto(e.get(st, r, rs), l.Base, v), why)
+		e.setStore(st, r, rs, l.Base, v, why)
 	case LArr:
 		r, rs := e.elemRegion(l.ET)
-		e.set(st, r, rs, sto(e.get(st, r, rs), l.Base, v), why)
+		e.setStore(st, r, rs, l.Base, v, why)
 	case LPath:
 		// functional update of the root struct value
 		root := e.load(st, l.Root)
@@ -457,6 +515,7 @@ func (e *Eng) locOfPtr(v *Val) *Loc {
 func (e *Eng) alloc(st *State, why string) string {
 	fr := e.get(st, frRegion, "Int")
 	ref := e.sc.define("ref", "Int", fr, "alloc "+why)
+	e.allocRefs[ref] = true
 	e.set(st, frRegion, "Int", sx("+", fr, "1"), "frontier")
 	return ref
 }
@@ -470,7 +529,7 @@ func (e *Eng) zeroObject(st *State, ptr string, stt types.Type, why string) {
 			continue
 		}
 		r, rs := e.fieldRegion(stt, i)
-		e.set(st, r, rs, sto(e.get(st, r, rs), ptr, e.zero(ft)), why)
+		e.setStore(st, r, rs, ptr, e.zero(ft), why)
 	}
 }
 
@@ -695,6 +754,63 @@ func (e *Eng) mergeStates(ins []edgeIn) *State {
 		if in.st.monOld != nil {
 			out.monOld = in.st.monOld
 		}
+	}
+	return out
+}
+
+// selStoreChain resolves (select (store (store a i1 v1) i2 v2) idx) for literal integer indices.
+func selStoreChain(arr, idx string) string {
+	if !isNumLit(idx) {
+		return sel(arr, idx)
+	}
+	cur := arr
+	for i := 0; i < 32; i++ {
+		if !strings.HasPrefix(cur, "(store ") {
+			break
+		}
+		parts := splitSexp(cur[7 : len(cur)-1])
+		if len(parts) != 3 || !isNumLit(parts[1]) {
+			break
+		}
+		if parts[1] == idx {
+			return parts[2]
+		}
+		cur = parts[0]
+	}
+	return sel(cur, idx)
+}
+
+func splitSexp(s string) []string {
+	var out []string
+	depth := 0
+	start := -1
+	for i := 0; i < len(s); i++ {
+		c := s[i]
+		switch {
+		case c == '(':
+			if depth == 0 && start < 0 {
+				start = i
+			}
+			depth++
+		case c == ')':
+			depth--
+			if depth == 0 {
+				out = append(out, s[start:i+1])
+				start = -1
+			}
+		case c == ' ':
+			if depth == 0 && start >= 0 {
+				out = append(out, s[start:i])
+				start = -1
+			}
+		default:
+			if depth == 0 && start < 0 {
+				start = i
+			}
+		}
+	}
+	if start >= 0 {
+		out = append(out, s[start:])
 	}
 	return out
 }
